@@ -13,6 +13,14 @@ package remove_fields
 // in the expected result alike).  Two plugin instances are started; one processes the document widened to
 // K = 1, 99, 100, 101, 150, 250 in this order, the other in the reverse order (a huge event first makes Go's
 // append reallocate a buffer for good), every event compared with the equally widened declarative expectation.
+//
+// EVENT KINDS (the result is a function of (document, selectors) for every event that carries a document): every
+// ordinary case is run through one instance as a regular event (twice), as a CHILD event built the way
+// processor.Spawn builds it (fresh Root mutated to the array element of a parent document, SetChildKind) and as a
+// CHILD-PARENT event (SetChildParentKind).  For a seeded sample (VERIF_E2E) the documents of several cases with the
+// same selector list are the elements of one array that a REAL `split` action splits on a RUNNING pipeline
+// [split, this plugin] (real processor.Spawn); the children and the same documents sent as ordinary events are
+// compared with the same declarative expectation.
 
 import (
 	"bufio"
@@ -26,10 +34,17 @@ import (
 	"strings"
 	"sync"
 	"testing"
+	"time"
 
+	"github.com/ozontech/file.d/fd"
 	"github.com/ozontech/file.d/pipeline"
+	"github.com/ozontech/file.d/plugin/action/split"
+	"github.com/ozontech/file.d/plugin/input/fake"
+	"github.com/ozontech/file.d/plugin/output/devnull"
 	"github.com/ozontech/file.d/test"
 	insaneJSON "github.com/ozontech/insane-json"
+	"github.com/prometheus/client_golang/prometheus"
+	"go.uber.org/zap"
 )
 
 const c18Plugin = "remove_fields"
@@ -345,6 +360,7 @@ type c18Mismatch struct {
 	Kind   string   `json:"kind"` // key_order | content | invalid_json | panic
 	AsSwap bool     `json:"as_swap_delete_model"`
 	Event  int      `json:"event"` // n-th Do of the plugin instance
+	EvKind string   `json:"event_kind"` // regular | child | child_parent | pipeline_regular | pipeline_child
 	Width  int      `json:"width"` // 0 = not a widened case; else the number of junk members per marker
 	Order  string   `json:"width_order,omitempty"`
 	Fam    int      `json:"fam"`
@@ -358,7 +374,34 @@ type c18Mismatch struct {
 
 type c18Event struct {
 	width            int
+	kind             string // regular | child | child_parent
 	doc, want, model string
+}
+
+// compares one produced document with the expectation; nil = as expected
+func c18Judge(m *c18Mismatch, got, want, model string) *c18Mismatch {
+	wantTok, err := c18Tokens(want)
+	if err != nil {
+		panic("harness: expected document is not JSON: " + want)
+	}
+	gotTok, err := c18Tokens(got)
+	if err != nil {
+		m.Kind = "invalid_json"
+		return m
+	}
+	if c18SameTokens(gotTok, wantTok) {
+		return nil
+	}
+	if reflect.DeepEqual(c18Unordered(got), c18Unordered(want)) {
+		m.Kind = "key_order"
+	} else {
+		m.Kind = "content"
+	}
+	if model != want {
+		modelTok, _ := c18Tokens(model)
+		m.AsSwap = c18SameTokens(gotTok, modelTok)
+	}
+	return m
 }
 
 // one real plugin instance, the given events in order
@@ -367,7 +410,7 @@ func c18RunInstance(c *c18Case, params *pipeline.ActionPluginParams, events []c1
 	cur := c18Event{}
 	defer func() {
 		if r := recover(); r != nil {
-			mm = append(mm, &c18Mismatch{Plugin: c18Plugin, Kind: "panic", Event: n, Width: cur.width, Order: order, Fam: c.Fam,
+			mm = append(mm, &c18Mismatch{Plugin: c18Plugin, Kind: "panic", Event: n, EvKind: cur.kind, Width: cur.width, Order: order, Fam: c.Fam,
 				Doc: c18Short(cur.doc), Fields: c.Sels, Want: c18Short(cur.want), Panic: fmt.Sprint(r), Case: c.Line})
 		}
 	}()
@@ -380,20 +423,37 @@ func c18RunInstance(c *c18Case, params *pipeline.ActionPluginParams, events []c1
 
 	for i, ev := range events {
 		n, cur = i+1, ev
-		wantTok, err := c18Tokens(ev.want)
-		if err != nil {
-			panic("harness: expected document is not JSON: " + ev.want)
+		var event *pipeline.Event
+		var parent *insaneJSON.Root
+		switch ev.kind {
+		case "child":
+			// as processor.Spawn does: a fresh Root mutated to the element node of the parent's array
+			parent = insaneJSON.Spawn()
+			if err := parent.DecodeString(`{"data":[` + ev.doc + `]}`); err != nil {
+				panic("harness: parent document does not decode: " + ev.doc)
+			}
+			event = &pipeline.Event{Root: insaneJSON.Spawn()}
+			event.Root.MutateToNode(parent.Dig("data").AsArray()[0])
+			event.SetChildKind()
+		default:
+			root := insaneJSON.Spawn()
+			if err := root.DecodeString(ev.doc); err != nil {
+				insaneJSON.Release(root)
+				panic("harness: case document does not decode: " + ev.doc)
+			}
+			event = &pipeline.Event{Root: root}
+			if ev.kind == "child_parent" {
+				event.SetChildParentKind()
+			}
 		}
-		root := insaneJSON.Spawn()
-		if err := root.DecodeString(ev.doc); err != nil {
-			insaneJSON.Release(root)
-			panic("harness: case document does not decode: " + ev.doc)
+		res := p.Do(event)
+		got := string(append([]byte(nil), event.Root.Encode(nil)...))
+		insaneJSON.Release(event.Root)
+		if parent != nil {
+			insaneJSON.Release(parent)
 		}
-		res := p.Do(&pipeline.Event{Root: root})
-		got := string(append([]byte(nil), root.Encode(nil)...))
-		insaneJSON.Release(root)
 
-		m := &c18Mismatch{Plugin: c18Plugin, Event: n, Width: ev.width, Order: order, Fam: c.Fam, Doc: c18Short(ev.doc),
+		m := &c18Mismatch{Plugin: c18Plugin, Event: n, EvKind: ev.kind, Width: ev.width, Order: order, Fam: c.Fam, Doc: c18Short(ev.doc),
 			Fields: c.Sels, Want: c18Short(ev.want), Got: c18Short(got), Case: c.Line}
 		if res != pipeline.ActionPass {
 			m.Kind = "content"
@@ -401,25 +461,9 @@ func c18RunInstance(c *c18Case, params *pipeline.ActionPluginParams, events []c1
 			mm = append(mm, m)
 			continue
 		}
-		gotTok, err := c18Tokens(got)
-		if err != nil {
-			m.Kind = "invalid_json"
-			mm = append(mm, m)
-			continue
+		if bad := c18Judge(m, got, ev.want, ev.model); bad != nil {
+			mm = append(mm, bad)
 		}
-		if c18SameTokens(gotTok, wantTok) {
-			continue
-		}
-		if reflect.DeepEqual(c18Unordered(got), c18Unordered(ev.want)) {
-			m.Kind = "key_order"
-		} else {
-			m.Kind = "content"
-		}
-		if ev.model != ev.want {
-			modelTok, _ := c18Tokens(ev.model)
-			m.AsSwap = c18SameTokens(gotTok, modelTok)
-		}
-		mm = append(mm, m)
 	}
 	return mm
 }
@@ -436,7 +480,7 @@ func c18Predict(c *c18Case, doc, want *c18Node) *c18Node {
 func c18Exec(c *c18Case, params *pipeline.ActionPluginParams) (mm []*c18Mismatch, nontrivial, reorder, predictorOff bool) {
 	if !c.Wide {
 		doc, want := c18Build(c.doc, 1), c18Build(c.want, 1)
-		ev := c18Event{doc: doc.text(), want: want.text()}
+		ev := c18Event{kind: "regular", doc: doc.text(), want: want.text()}
 		ev.model = ev.want
 		if c.hasModel {
 			ev.model = c18Build(c.model, 1).text()
@@ -444,12 +488,14 @@ func c18Exec(c *c18Case, params *pipeline.ActionPluginParams) (mm []*c18Mismatch
 		predictorOff = c18Predict(c, doc, want).text() != ev.model
 		nontrivial = ev.want != ev.doc && ev.want != "{}"
 		reorder = ev.model != ev.want
-		return c18RunInstance(c, params, []c18Event{ev, ev}, ""), nontrivial, reorder, predictorOff
+		child, childParent := ev, ev
+		child.kind, childParent.kind = "child", "child_parent"
+		return c18RunInstance(c, params, []c18Event{ev, ev, child, childParent}, ""), nontrivial, reorder, predictorOff
 	}
 	var asc []c18Event
 	for _, w := range c18Widths {
 		doc, want := c18Build(c.doc, w), c18Build(c.want, w)
-		ev := c18Event{width: w, doc: doc.text(), want: want.text(), model: c18Predict(c, doc, want).text()}
+		ev := c18Event{width: w, kind: "regular", doc: doc.text(), want: want.text(), model: c18Predict(c, doc, want).text()}
 		if w == 1 {
 			m := ev.want
 			if c.hasModel {
@@ -523,7 +569,7 @@ func TestVerifC18(t *testing.T) {
 					wide++
 					events += 2 * len(c18Widths)
 				} else {
-					events += 2
+					events += 4
 				}
 				if nt {
 					nontrivial++
@@ -535,7 +581,7 @@ func TestVerifC18(t *testing.T) {
 					predictorOff++
 				}
 				for _, m := range mm {
-					class := fmt.Sprintf("%s/%v/event%d/width%d%s", m.Kind, m.AsSwap, m.Event, m.Width, m.Order)
+					class := fmt.Sprintf("%s/%v/%s/event%d/width%d%s", m.Kind, m.AsSwap, m.EvKind, m.Event, m.Width, m.Order)
 					counts[class]++
 					if len(kept[class]) < perClass {
 						kept[class] = append(kept[class], m)
@@ -546,15 +592,178 @@ func TestVerifC18(t *testing.T) {
 		}(wi)
 	}
 	wg.Wait()
+	// end to end: [split, this plugin] on a running pipeline
+	e2eGroups, e2eDocs := 0, 0
+	if e2e := os.Getenv("VERIF_E2E"); e2e != "" {
+		ef, err := os.Open(e2e)
+		if err != nil {
+			t.Fatal(err)
+		}
+		es := bufio.NewScanner(ef)
+		es.Buffer(make([]byte, 1<<20), 1<<24)
+		for es.Scan() {
+			var group []string
+			if err := json.Unmarshal(es.Bytes(), &group); err != nil || len(group) == 0 {
+				bad++
+				continue
+			}
+			mm, nd := c18EndToEnd(group)
+			e2eGroups++
+			e2eDocs += nd
+			events += 2 * nd
+			for _, m := range mm {
+				class := fmt.Sprintf("%s/%v/%s", m.Kind, m.AsSwap, m.EvKind)
+				counts[class]++
+				if len(kept[class]) < perClass {
+					kept[class] = append(kept[class], m)
+				}
+			}
+		}
+		ef.Close()
+	}
+
 	var mms []*c18Mismatch
 	for _, l := range kept {
 		mms = append(mms, l...)
 	}
 	res := map[string]interface{}{"plugin": c18Plugin, "executed": executed, "events": events, "wide_cases": wide, "bad_lines": bad,
+		"e2e_groups": e2eGroups, "e2e_documents": e2eDocs,
 		"nontrivial": nontrivial, "reordering_predicted": reordering, "predictor_disagrees": predictorOff,
 		"mismatch_counts": counts, "mismatches": mms}
 	b, _ := json.Marshal(res)
 	if err := os.WriteFile(out, b, 0o644); err != nil {
 		t.Fatal(err)
 	}
+}
+
+// c18EndToEnd: the cases of one group share the selector list.  A running pipeline [split(field: data), plugin]
+// receives every document as an ordinary event and then ONE event {"data":[doc1,...,docN]}; the real split action
+// spawns the children through the real processor.Spawn.  One processor, so the output order is the input order.
+func c18EndToEnd(group []string) (mm []*c18Mismatch, ndocs int) {
+	var cases []*c18Case
+	for _, line := range group {
+		c, err := c18ParseCase(line)
+		if err != nil || c.Wide {
+			panic("harness: bad end-to-end case " + line)
+		}
+		cases = append(cases, c)
+	}
+	first := cases[0]
+	evs := make([]c18Event, len(cases))
+	for i, c := range cases {
+		doc, want := c18Build(c.doc, 1), c18Build(c.want, 1)
+		evs[i] = c18Event{doc: doc.text(), want: want.text()}
+		evs[i].model = evs[i].want
+		if c.hasModel {
+			evs[i].model = c18Build(c.model, 1).text()
+		}
+	}
+
+	splitInfo, err := fd.DefaultPluginRegistry.Get(pipeline.PluginKindAction, "split")
+	if err != nil {
+		panic(err)
+	}
+	splitConfig := test.NewConfig(&split.Config{Field: "data"}, nil)
+	_, cf := factory()
+	cf.(*Config).Fields = append([]string(nil), first.Sels...)
+	test.NewConfig(cf, nil)
+	actions := test.NewActionPluginStaticInfo(splitInfo.Factory, splitConfig, pipeline.MatchModeAnd, nil, false)
+	actions = append(actions, test.NewActionPluginStaticInfo(factory, cf, pipeline.MatchModeAnd, nil, false)...)
+
+	settings := &pipeline.Settings{
+		Capacity:            64,
+		MaintenanceInterval: time.Second * 5,
+		EventTimeout:        pipeline.DefaultEventTimeout,
+		Antispam:            pipeline.AntispamSettings{Threshold: pipeline.DefaultAntispamThreshold},
+		AvgEventSize:        2048,
+		MetaCacheSize:       32,
+		StreamField:         "stream",
+		Decoder:             "json",
+		Metric: &pipeline.MetricSettings{
+			HoldDuration:        pipeline.DefaultMetricHoldDuration,
+			MaxLabelValueLength: pipeline.DefaultMetricMaxLabelValueLength,
+		},
+	}
+	p := pipeline.New("verif_c18", settings, prometheus.NewRegistry(), zap.NewNop())
+	p.DisableParallelism()
+	anyIn, _ := fake.Factory()
+	input := anyIn.(*fake.Plugin)
+	p.SetInput(&pipeline.InputPluginInfo{
+		PluginStaticInfo:  &pipeline.PluginStaticInfo{Type: "fake"},
+		PluginRuntimeInfo: &pipeline.PluginRuntimeInfo{Plugin: input},
+	})
+	anyOut, _ := devnull.Factory()
+	output := anyOut.(*devnull.Plugin)
+	p.SetOutput(&pipeline.OutputPluginInfo{
+		PluginStaticInfo:  &pipeline.PluginStaticInfo{Type: "devnull"},
+		PluginRuntimeInfo: &pipeline.PluginRuntimeInfo{Plugin: output},
+	})
+	for _, info := range actions {
+		p.AddAction(info)
+	}
+
+	var mu sync.Mutex
+	var regular, children []string
+	seen := make(chan struct{}, 4*len(cases)+8)
+	output.SetOutFn(func(e *pipeline.Event) {
+		mu.Lock()
+		switch {
+		case e.IsChildParentKind():
+		case e.IsChildKind():
+			children = append(children, string(append([]byte(nil), e.Root.Encode(nil)...)))
+		default:
+			regular = append(regular, string(append([]byte(nil), e.Root.Encode(nil)...)))
+		}
+		mu.Unlock()
+		seen <- struct{}{}
+	})
+	p.Start()
+
+	var sb strings.Builder
+	sb.WriteString(`{"data":[`)
+	for i, ev := range evs {
+		input.In(0, "verif.log", test.NewOffset(int64(i)), []byte(ev.doc))
+		if i > 0 {
+			sb.WriteByte(',')
+		}
+		sb.WriteString(ev.doc)
+	}
+	sb.WriteString(`]}`)
+	input.In(0, "verif.log", test.NewOffset(int64(len(evs))), []byte(sb.String()))
+
+	// N ordinary events + N children + the parent; generous deadline (normally a few milliseconds)
+	deadline := time.After(60 * time.Second)
+	complete := true
+wait:
+	for i := 0; i < 2*len(evs)+1; i++ {
+		select {
+		case <-seen:
+		case <-deadline:
+			complete = false
+			break wait
+		}
+	}
+	p.Stop()
+
+	mu.Lock()
+	defer mu.Unlock()
+	mk := func(kind string, i int, got string) *c18Mismatch {
+		return &c18Mismatch{Plugin: c18Plugin, Event: i + 1, EvKind: kind, Fam: first.Fam, Doc: c18Short(evs[i].doc), Fields: first.Sels,
+			Want: c18Short(evs[i].want), Got: c18Short(got), Case: cases[i].Line}
+	}
+	if !complete || len(regular) != len(evs) || len(children) != len(evs) {
+		m := mk("pipeline_child", 0, fmt.Sprintf("%d ordinary and %d child events arrived, %d each expected (complete=%v)",
+			len(regular), len(children), len(evs), complete))
+		m.Kind = "events_missing"
+		return []*c18Mismatch{m}, len(evs)
+	}
+	for i := range evs {
+		if bad := c18Judge(mk("pipeline_regular", i, regular[i]), regular[i], evs[i].want, evs[i].model); bad != nil {
+			mm = append(mm, bad)
+		}
+		if bad := c18Judge(mk("pipeline_child", i, children[i]), children[i], evs[i].want, evs[i].model); bad != nil {
+			mm = append(mm, bad)
+		}
+	}
+	return mm, len(evs)
 }
